@@ -45,7 +45,29 @@ def main(argv):
     except common.Infra as e:
         print("INFRA-ERROR property=%s %s" % (prop, e), file=sys.__stdout__)
         return 2
-    except Exception:
+    except Exception as e:
+        tb = traceback.format_exc()
+        in_kojen = any(os.path.join(common.REPO, "kojen") in (fr.filename or "") for fr in traceback.extract_tb(e.__traceback__))
+        model = getattr(e, "kojen_model", None)
+        if in_kojen and not replay:
+            # the code under test raised where the check expects it to work: a violation, with the model as the failing input
+            import json
+            import time
+            os.makedirs(common.REPLAY, exist_ok=True)
+            path = os.path.join(common.REPLAY, "%s-seed%s-%d.json" % (prop, common.seed(), int(time.time() * 1000) % 10 ** 9))
+            with open(path, "w") as f:
+                json.dump(dict(property=prop, kind="failing-input" if model is not None else "no-failing-input-found", tier=tier, seed=common.seed(),
+                               violation=dict(what="the code under test raised %s: %s" % (type(e).__name__, e), model=model, traceback=tb[-3000:])), f, indent=1, default=repr)
+            try:
+                os.makedirs(common.EVID, exist_ok=True)
+                with open(os.path.join(common.EVID, prop + ".json"), "w") as f:
+                    json.dump(dict(property_id=prop, tier=tier, seed=common.seed(), level="exploration", wall_s=0.0, violations=1,
+                                   coverage=dict(evaluations=1, distinct_nontrivial=1, rule="run aborted: the code under test raised on a generated input (see the replay file); nothing else was explored",
+                                                 samples=[dict(model=model, raised="%s: %s" % (type(e).__name__, e))])), f, indent=1, default=repr)
+            except Exception:       # noqa
+                pass
+            print("VIOLATION property=%s replay=%s%s" % (prop, path, "" if model is not None else " no-failing-input-found"), file=sys.__stdout__)
+            return 1
         traceback.print_exc()
         print("INFRA-ERROR property=%s unexpected exception in the harness" % prop, file=sys.__stdout__)
         return 2
